@@ -184,6 +184,11 @@ class ExpressionTransformer:
         self.nsp = nsp
 
     def get_pending(self, node: expr) -> PendingExprGeneric:
+        if isinstance(node, (Yield, YieldFrom, Await)):
+            raise RuntimeError(
+                f"At line {node.lineno}, col {node.col_offset}: "
+                f"Unable to convert node '{type(node).__name__}'"
+            )
         if isinstance(node, NamedExpr):
             return PendingNamedExpr(node, self.nsp)
         elif isinstance(node, Name):
